@@ -317,4 +317,395 @@ theorem write_spec (s : St) (bs : Bytes) (hb : s.buf.length ≤ s.size) : WriteS
     exact ⟨fr.size.trans z1, fr.init.trans z2, fr.stopped.trans z3, fr.sscript.trans z4,
       ⟨evs, by rw [← z5]; exact hg, hn⟩, by rw [← z1]; exact b, ee, nl, by rw [ct, f0], se⟩
 
+/-! ## Sync, tick, Stop -/
+
+structure SyncSpec (s : St) (r : St × Option EK × Bool) : Prop where
+  size : r.1.size = s.size
+  init : r.1.init = s.init
+  stopped : r.1.stopped = s.stopped
+  shrink : r.1.buf.length ≤ s.buf.length
+  content : content r.1 = content s
+  synced : ∃ evs, r.1.sink = s.sink ++ evs ++ [.sync] ∧ ∀ e ∈ evs, e ≠ .sync
+  flushed : (s.init = false → s.buf = []) → r.2.1 = none → r.1.buf = []
+  err_keep : s.init = false → r.1.err = s.err ∧ r.1.buf = s.buf
+
+theorem sync_spec (s : St) : SyncSpec s (sync s) := by
+  unfold sync wsSync
+  cases hi : s.init with
+  | false =>
+    simp only [Bool.false_eq_true, if_false]
+    exact ⟨rfl, rfl, rfl, Nat.le_refl _, by simp [content], ⟨[], by simp, by simp⟩, fun h _ => h hi, fun _ => ⟨rfl, rfl⟩⟩
+  | true =>
+    simp only [if_true]
+    have F := flush_spec s
+    obtain ⟨evs, hg, hn⟩ := F.frame.grows
+    refine ⟨F.frame.size, F.frame.init, F.frame.stopped, F.shrink, ?_, ⟨evs, by simp [hg], hn⟩,
+      fun _ h => F.ok_empty h, fun h => (by rw [hi] at h; cases h)⟩
+    have := F.content
+    simp only [Bws.content, taken_append, taken_sync, List.append_nil] at this ⊢
+    exact this
+
+/-! ## well-formed states: everything reachable from `mk` -/
+
+structure Wf (s : St) : Prop where
+  bound : s.buf.length ≤ s.size
+  fresh : s.init = false → s.buf = [] ∧ s.stopped = false ∧ s.err = none
+
+theorem wf_mk (size : Int) (ws : List WOut) (ss : List Bool) : Wf (mk size ws ss) :=
+  ⟨Nat.zero_le _, fun _ => ⟨rfl, rfl, rfl⟩⟩
+
+theorem wf_write (s : St) (bs : Bytes) (h : Wf s) : Wf (write s bs).1 := by
+  have W := write_spec s bs h.bound
+  exact ⟨by rw [W.size]; exact W.bound, fun hi => by rw [W.init] at hi; cases hi⟩
+
+theorem wf_sync (s : St) (h : Wf s) : Wf (sync s).1 := by
+  have S := sync_spec s
+  refine ⟨by rw [S.size]; exact Nat.le_trans S.shrink h.bound, fun hi => ?_⟩
+  rw [S.init] at hi
+  obtain ⟨h1, h2, h3⟩ := h.fresh hi
+  obtain ⟨k1, k2⟩ := S.err_keep hi
+  exact ⟨by rw [k2]; exact h1, by rw [S.stopped]; exact h2, by rw [k1]; exact h3⟩
+
+theorem wf_tick (s : St) (h : Wf s) : Wf (tick s) := by
+  unfold tick; split
+  · exact wf_sync s h
+  · exact h
+
+theorem wf_stop (s : St) (h : Wf s) : Wf (stop s).1 := by
+  unfold stop; split
+  · exact h
+  · rename_i hc
+    have hi : s.init = true := by
+      cases hs : s.init <;> simp [hs] at hc ⊢
+    apply wf_sync
+    exact ⟨h.bound, fun hi' => by rw [hi] at hi'; cases hi'⟩
+
+theorem wf_step (s : St) (o : Op) (h : Wf s) : Wf (step s o).1 := by
+  cases o with
+  | write bs => exact wf_write s bs h
+  | sync => exact wf_sync s h
+  | tick => exact wf_tick s h
+  | stop => exact wf_stop s h
+
+theorem wf_run (ops : List Op) : ∀ s, Wf s → Wf (run s ops) := by
+  induction ops with
+  | nil => intro s h; exact h
+  | cons o os ih => intro s h; exact ih _ (wf_step s o h)
+
+theorem tick_content (s : St) : content (tick s) = content s := by
+  unfold tick; split
+  · exact (sync_spec s).content
+  · rfl
+
+theorem stop_content (s : St) : content (stop s).1 = content s := by
+  unfold stop; split
+  · rfl
+  · exact (sync_spec _).content
+
+/-- the accounting identity behind `stream_inv`, from any well-formed state -/
+theorem content_run (ops : List Op) : ∀ s, Wf s → content (run s ops) = content s ++ accepted s ops := by
+  induction ops with
+  | nil => intro s _; simp [run, accepted]
+  | cons o os ih =>
+    intro s h
+    cases o with
+    | write bs =>
+      have W := write_spec s bs h.bound
+      simp only [run, step, accepted]
+      rw [ih _ (wf_write s bs h), W.content, List.append_assoc]
+    | sync =>
+      simp only [run, step, accepted]
+      rw [ih _ (wf_sync s h), (sync_spec s).content]
+    | tick =>
+      simp only [run, step, accepted]
+      rw [ih _ (wf_tick s h), tick_content]
+    | stop =>
+      simp only [run, step, accepted]
+      rw [ih _ (wf_stop s h), stop_content]
+
+/-! ## the reliable sink: closed forms -/
+
+/-- every `WS.Write` from here on takes everything and returns nil, and no error has stuck so far -/
+def Reliable (s : St) : Prop := s.wscript = [] ∧ s.err = none
+
+theorem sinkWrite_reliable (s : St) (p : Bytes) (h : s.wscript = []) :
+    (sinkWrite s p).2.1 = p.length ∧ (sinkWrite s p).2.2 = false ∧ (sinkWrite s p).1.wscript = [] ∧
+    (sinkWrite s p).1.sink = s.sink ++ [.write p p.length] := by
+  cases p <;> simp [sinkWrite, h]
+
+/-- what a flush appends to the sink's event list -/
+def flushEv (buf : Bytes) : List Ev := if buf = [] then [] else [.write buf buf.length]
+
+theorem flush_reliable (s : St) (h : Reliable s) :
+    (flush s).2 = none ∧ Reliable (flush s).1 ∧ (flush s).1.buf = [] ∧ (flush s).1.sink = s.sink ++ flushEv s.buf := by
+  rw [flush_eq, h.2]
+  cases hb : s.buf.isEmpty with
+  | true =>
+    have hnil : s.buf = [] := by simpa using hb
+    simp [h, hnil, flushEv]
+  | false =>
+    have hne : s.buf ≠ [] := by simpa using hb
+    obtain ⟨h1, h2, h3, h4⟩ := sinkWrite_reliable s s.buf h.1
+    simp only [Bool.false_eq_true, if_false, h1, h2, flushErr, Nat.lt_irrefl]
+    simp [Reliable, h3, h4, flushEv, hne, h.2]
+
+/-- `bufio.Writer.Write` on a reliable sink when the write fits or the buffer is empty (which is all
+    `BufferedWriteSyncer.Write` ever asks of it) -/
+theorem bwrite_reliable (fuel : Nat) (s : St) (p : Bytes) (nn : Nat) (h : Reliable s) (hpre : p.length ≤ s.avail ∨ s.buf = []) :
+    (bwrite (fuel + 2) s p nn).2.1 = nn + p.length ∧ (bwrite (fuel + 2) s p nn).2.2 = none ∧
+    Reliable (bwrite (fuel + 2) s p nn).1 ∧
+    ((p.length ≤ s.avail ∧ (bwrite (fuel + 2) s p nn).1.sink = s.sink ∧ (bwrite (fuel + 2) s p nn).1.buf = s.buf ++ p) ∨
+     (p.length > s.avail ∧ (bwrite (fuel + 2) s p nn).1.sink = s.sink ++ [.write p p.length] ∧
+      (bwrite (fuel + 2) s p nn).1.buf = [])) := by
+  by_cases hfit : p.length ≤ s.avail
+  · have hc : ¬(p.length > s.avail ∧ s.err = none) := by omega
+    rw [bwrite, if_neg hc]
+    simp only [h.2]
+    simp [Reliable, h.1, hfit]
+  · have hnil : s.buf = [] := by rcases hpre with h' | h'; exact absurd h' hfit; exact h'
+    have hc : p.length > s.avail ∧ s.err = none := ⟨by omega, h.2⟩
+    obtain ⟨h1, h2, h3, h4⟩ := sinkWrite_reliable s p h.1
+    rw [bwrite, if_pos hc]
+    have hbe : s.buf.isEmpty = true := by simp [hnil]
+    have hlb1 : (loopBody s p).2 = p.length := by simp only [loopBody, hbe, if_true, h1]
+    have hlb2 : (loopBody s p).1.err = none := by simp [loopBody, hbe, h2]
+    have hlb3 : (loopBody s p).1.buf = [] := by simp [loopBody, hnil]
+    have hlb4 : (loopBody s p).1.sink = s.sink ++ [.write p p.length] := by simp [loopBody, hbe, h4]
+    have hlb5 : (loopBody s p).1.wscript = [] := by simp [loopBody, hbe, h3]
+    rw [hlb1, List.drop_length]
+    have hc2 : ¬(([] : Bytes).length > (loopBody s p).1.avail ∧ (loopBody s p).1.err = none) := by simp
+    rw [bwrite, if_neg hc2]
+    simp only [hlb2, List.append_nil, List.length_nil, Nat.add_zero]
+    have hgt : p.length > s.avail := by omega
+    simp [Reliable, hlb5, hlb4, hlb3, hgt]
+
+/-- `BufferedWriteSyncer.Write` on a reliable sink: the three cases (fits; flush then buffer; flush then direct) -/
+structure RelWrite (s : St) (bs : Bytes) (r : St × Nat × Option EK) : Prop where
+  n : r.2.1 = bs.length
+  err : r.2.2 = none
+  rel : Reliable r.1
+  cases : (bs.length ≤ s.avail ∧ r.1.sink = s.sink ∧ r.1.buf = s.buf ++ bs) ∨
+    (bs.length > s.avail ∧ bs.length ≤ s.size ∧ r.1.sink = s.sink ++ flushEv s.buf ∧ r.1.buf = bs) ∨
+    (bs.length > s.size ∧ r.1.sink = s.sink ++ flushEv s.buf ++ [.write bs bs.length] ∧ r.1.buf = [])
+
+theorem fuelFor_eq (p : Bytes) : fuelFor p = (p.length + 1) + 2 := rfl
+
+theorem write_reliable (s : St) (bs : Bytes) (h : Reliable s) : RelWrite s bs (write s bs) := by
+  unfold write
+  generalize hs0 : ({ s with init := true } : St) = s0
+  have r0 : Reliable s0 := by rw [← hs0]; exact h
+  have z1 : s0.size = s.size := by rw [← hs0]
+  have z5 : s0.sink = s.sink := by rw [← hs0]
+  have z6 : s0.buf = s.buf := by rw [← hs0]
+  have zav : s0.avail = s.avail := by rw [← hs0]; rfl
+  have hav : s.avail = s.size - s.buf.length := rfl
+  by_cases hc : bs.length > s0.avail ∧ s0.buf.length > 0
+  · rw [if_pos hc]
+    obtain ⟨f1, f2, f3, f4⟩ := flush_reliable s0 r0
+    cases hfl : flush s0 with
+    | mk s1 oe =>
+      rw [hfl] at f1 f2 f3 f4
+      simp only at f1 f2 f3 f4
+      subst f1
+      simp only
+      have hs1 : s1.size = s.size := by
+        have := (flush_spec s0).frame.size; rw [hfl] at this; exact this.trans z1
+      have hav1 : s1.avail = s.size := by simp [St.avail, f3, hs1]
+      rw [bufioWrite, fuelFor_eq]
+      obtain ⟨b1, b2, b3, b4⟩ := bwrite_reliable (bs.length + 1) s1 bs 0 f2 (Or.inr f3)
+      refine ⟨by rw [b1]; omega, b2, b3, ?_⟩
+      rcases b4 with ⟨c1, c2, c3⟩ | ⟨c1, c2, c3⟩
+      · right; left
+        exact ⟨by omega, by omega, by rw [c2, f4, z5, z6], by rw [c3, f3]; rfl⟩
+      · right; right
+        exact ⟨by omega, by rw [c2, f4, z5, z6], c3⟩
+  · rw [if_neg hc]
+    rw [bufioWrite, fuelFor_eq]
+    have hpre : bs.length ≤ s0.avail ∨ s0.buf = [] := by
+      by_cases h1 : bs.length ≤ s0.avail
+      · exact Or.inl h1
+      · right; apply List.length_eq_zero_iff.mp; omega
+    obtain ⟨b1, b2, b3, b4⟩ := bwrite_reliable (bs.length + 1) s0 bs 0 r0 hpre
+    refine ⟨by rw [b1]; omega, b2, b3, ?_⟩
+    rcases b4 with ⟨c1, c2, c3⟩ | ⟨c1, c2, c3⟩
+    · left; exact ⟨by omega, by rw [c2, z5], by rw [c3, z6]⟩
+    · have hnil : s.buf = [] := by
+        rcases hpre with h1 | h1
+        · omega
+        · rw [← z6]; exact h1
+      have : s.avail = s.size := by simp [St.avail, hnil]
+      right; right
+      exact ⟨by omega, by rw [c2, z5]; simp [flushEv, hnil], c3⟩
+
+/-- `BufferedWriteSyncer.Sync` on a reliable sink -/
+theorem sync_reliable (s : St) (h : Reliable s) (hw : s.init = false → s.buf = []) :
+    (sync s).2.1 = none ∧ Reliable (sync s).1 ∧ (sync s).1.buf = [] ∧ (sync s).1.sink = s.sink ++ flushEv s.buf ++ [.sync] := by
+  unfold sync wsSync
+  cases hi : s.init with
+  | false =>
+    have := hw hi
+    simp only [Bool.false_eq_true, if_false]
+    refine ⟨by trivial, h, this, ?_⟩
+    simp [flushEv, this]
+  | true =>
+    obtain ⟨f1, f2, f3, f4⟩ := flush_reliable s h
+    simp only [if_true]
+    exact ⟨f1, f2, f3, by rw [f4]⟩
+
+/-! ## whole writes -/
+
+/-- the caller writes `ws` are cut into contiguous groups: every sink write is the concatenation of one group and the
+    buffer holds the concatenation of the writes after the last group -/
+def Aligned (ws : List Bytes) (sink : List Ev) (buf : Bytes) : Prop :=
+  ∃ (groups : List (List Bytes)) (pending : List Bytes),
+    ws = groups.flatten ++ pending ∧ sinkWrites sink = groups.map List.flatten ∧ buf = pending.flatten
+
+/-- every sink write so far took all it was handed -/
+def Full (sink : List Ev) : Prop := ∀ e ∈ sink, e = .sync ∨ ∃ p, e = .write p p.length
+
+theorem aligned_buffer {ws sink buf} (bs : Bytes) (h : Aligned ws sink buf) : Aligned (ws ++ [bs]) sink (buf ++ bs) := by
+  obtain ⟨g, p, h1, h2, h3⟩ := h
+  exact ⟨g, p ++ [bs], by rw [h1, List.append_assoc], h2, by simp [h3]⟩
+
+theorem aligned_flush {ws sink buf} (h : Aligned ws sink buf) : Aligned ws (sink ++ flushEv buf) [] := by
+  obtain ⟨g, p, h1, h2, h3⟩ := h
+  unfold flushEv
+  by_cases hb : buf = []
+  · rw [if_pos hb]
+    exact ⟨g, p, h1, by simpa using h2, by rw [← h3, hb]⟩
+  · rw [if_neg hb]
+    exact ⟨g ++ [p], [], by simp [h1], by simp [h2, h3], rfl⟩
+
+theorem aligned_direct {ws sink} (bs : Bytes) (k : Nat) (h : Aligned ws sink []) :
+    Aligned (ws ++ [bs]) (sink ++ [.write bs k]) [] := by
+  obtain ⟨g, p, h1, h2, h3⟩ := h
+  exact ⟨g ++ [p ++ [bs]], [], by simp [h1], by simp [h2, ← h3], rfl⟩
+
+theorem aligned_sync {ws sink buf} (h : Aligned ws sink buf) : Aligned ws (sink ++ [.sync]) buf := by
+  obtain ⟨g, p, h1, h2, h3⟩ := h
+  exact ⟨g, p, h1, by simpa using h2, h3⟩
+
+theorem full_append {a b : List Ev} (ha : Full a) (hb : Full b) : Full (a ++ b) := by
+  intro e he
+  rcases List.mem_append.mp he with h | h
+  · exact ha e h
+  · exact hb e h
+
+theorem full_flushEv (buf : Bytes) : Full (flushEv buf) := by
+  unfold flushEv; split
+  · intro e he; cases he
+  · intro e he; simp at he; exact Or.inr ⟨buf, he⟩
+
+theorem full_taken : ∀ {sink : List Ev}, Full sink → taken sink = (sinkWrites sink).flatten
+  | [], _ => rfl
+  | e :: r, h => by
+    have hr : Full r := fun x hx => h x (List.mem_cons_of_mem _ hx)
+    rcases h e (by simp) with he | ⟨p, he⟩
+    · subst he; simp [taken, sinkWrites, full_taken hr]
+    · subst he; simp [taken, sinkWrites, full_taken hr]
+
+/-- the invariant of every run over a reliable sink; `ws` = the caller writes so far -/
+structure RInv (ws : List Bytes) (s : St) : Prop where
+  wf : Wf s
+  rel : Reliable s
+  aligned : Aligned ws s.sink s.buf
+  full : Full s.sink
+
+theorem rinv_mk (size : Int) (ss : List Bool) : RInv [] (mk size [] ss) :=
+  ⟨wf_mk _ _ _, ⟨rfl, rfl⟩, ⟨[], [], rfl, rfl, rfl⟩, fun _ h => by cases h⟩
+
+theorem rinv_write {ws s} (bs : Bytes) (h : RInv ws s) : RInv (ws ++ [bs]) (write s bs).1 := by
+  have R := write_reliable s bs h.rel
+  refine ⟨wf_write s bs h.wf, R.rel, ?_, ?_⟩
+  · rcases R.cases with ⟨_, c2, c3⟩ | ⟨_, _, c2, c3⟩ | ⟨_, c2, c3⟩
+    · rw [c2, c3]; exact aligned_buffer bs h.aligned
+    · rw [c2, c3]
+      have := aligned_buffer bs (aligned_flush h.aligned)
+      simpa using this
+    · rw [c2, c3]; exact aligned_direct bs _ (aligned_flush h.aligned)
+  · rcases R.cases with ⟨_, c2, _⟩ | ⟨_, _, c2, _⟩ | ⟨_, c2, _⟩
+    · rw [c2]; exact h.full
+    · rw [c2]; exact full_append h.full (full_flushEv _)
+    · rw [c2]
+      refine full_append (full_append h.full (full_flushEv _)) ?_
+      intro e he; simp at he; exact Or.inr ⟨bs, he⟩
+
+theorem rinv_sync {ws s} (h : RInv ws s) : RInv ws (sync s).1 := by
+  obtain ⟨_, r2, r3, r4⟩ := sync_reliable s h.rel (fun hi => (h.wf.fresh hi).1)
+  refine ⟨wf_sync s h.wf, r2, ?_, ?_⟩
+  · rw [r3, r4]; exact aligned_sync (aligned_flush h.aligned)
+  · rw [r4]
+    refine full_append (full_append h.full (full_flushEv _)) ?_
+    intro e he; simp at he; exact Or.inl he
+
+theorem rinv_tick {ws s} (h : RInv ws s) : RInv ws (tick s) := by
+  unfold tick; split
+  · exact rinv_sync h
+  · exact h
+
+theorem rinv_stop {ws s} (h : RInv ws s) : RInv ws (stop s).1 := by
+  unfold stop; split
+  · exact h
+  · rename_i hc
+    have hi : s.init = true := by
+      cases hs : s.init <;> simp [hs] at hc ⊢
+    apply rinv_sync
+    exact ⟨⟨h.wf.bound, fun hi' => by rw [hi] at hi'; cases hi'⟩, h.rel, h.aligned, h.full⟩
+
+theorem rinv_step {ws s} (o : Op) (h : RInv ws s) : RInv (ws ++ writesOf [o]) (step s o).1 := by
+  cases o with
+  | write bs => exact rinv_write bs h
+  | sync => simpa [writesOf, step] using rinv_sync h
+  | tick => simpa [writesOf, step] using rinv_tick h
+  | stop => simpa [writesOf, step] using rinv_stop h
+
+theorem writesOf_cons (o : Op) (os : List Op) : writesOf (o :: os) = writesOf [o] ++ writesOf os := by
+  cases o <;> simp [writesOf]
+
+theorem writesOf_append (a b : List Op) : writesOf (a ++ b) = writesOf a ++ writesOf b := by
+  induction a with
+  | nil => rfl
+  | cons o os ih => rw [List.cons_append, writesOf_cons, ih, writesOf_cons o os, List.append_assoc]
+
+theorem rinv_run (ops : List Op) : ∀ ws s, RInv ws s → RInv (ws ++ writesOf ops) (run s ops) := by
+  induction ops with
+  | nil => intro ws s h; simpa [writesOf, run] using h
+  | cons o os ih =>
+    intro ws s h
+    have := ih _ _ (rinv_step o h)
+    rw [writesOf_cons, ← List.append_assoc]
+    exact this
+
+/-- on a reliable sink every write is accepted in full -/
+theorem accepted_reliable (ops : List Op) : ∀ ws s, RInv ws s → accepted s ops = (writesOf ops).flatten := by
+  induction ops with
+  | nil => intro _ _ _; rfl
+  | cons o os ih =>
+    intro ws s h
+    cases o with
+    | write bs =>
+      have R := write_reliable s bs h.rel
+      simp only [accepted, writesOf, List.flatten_cons]
+      rw [ih _ _ (rinv_write bs h), R.n, List.take_length]
+    | sync => simp only [accepted, writesOf]; exact ih _ _ (rinv_sync h)
+    | tick => simp only [accepted, writesOf]; exact ih _ _ (rinv_tick h)
+    | stop => simp only [accepted, writesOf]; exact ih _ _ (rinv_stop h)
+
+/-- what a crash can leave behind: the bytes of any prefix of the sink's event list are whole caller writes -/
+theorem aligned_prefix {ws : List Bytes} {sink : List Ev} {buf : Bytes} (ha : Aligned ws sink buf) (hf : Full sink)
+    (pre : List Ev) (hp : pre <+: sink) : ∃ k, taken pre = (ws.take k).flatten := by
+  obtain ⟨g, p, h1, h2, _⟩ := ha
+  obtain ⟨rest, hr⟩ := hp
+  have hfp : Full pre := fun e he => hf e (by rw [← hr]; exact List.mem_append_left _ he)
+  have hsw : sinkWrites pre ++ sinkWrites rest = g.map List.flatten := by rw [← h2, ← hr, sinkWrites_append]
+  have hpre : sinkWrites pre = (g.take (sinkWrites pre).length).map List.flatten := by
+    have : sinkWrites pre = (sinkWrites pre ++ sinkWrites rest).take (sinkWrites pre).length := by simp
+    rw [hsw, ← List.map_take] at this
+    exact this
+  obtain ⟨j, hj⟩ : ∃ j, sinkWrites pre = (g.take j).map List.flatten := ⟨_, hpre⟩
+  refine ⟨(g.take j).flatten.length, ?_⟩
+  have hg : g.flatten = (g.take j).flatten ++ (g.drop j).flatten := by
+    rw [← List.flatten_append, List.take_append_drop]
+  rw [full_taken hfp, hj, h1, hg, List.append_assoc, List.take_left' rfl, List.flatten_flatten]
+
 end ZapVerif.Bws
